@@ -86,12 +86,12 @@ Record variant := {
   v_ts_rollback : bool;     (* TimestampChecker.OnError removes the marker            (7.4) *)
   v_prompt_rollback : bool; (* a declined prompt calls statusOnError                  (7.5) *)
   v_listjson_dry : bool;    (* ToEditorOutput runs the check dry                      (7.6) *)
-  v_safe : bool;            (* invalidate the record before an attempt, record after success (7.7) *)
+  v_safe : bool;            (* RunTask checks dry, drops the record before an attempt, records after success (7.7) *)
   v_fp_exact : bool;        (* checksum: the record is the hash of the exact fingerprint (7.8) *)
   v_ts_exact : bool;        (* timestamp: the record is the hash of (name, mtime) of every source, not a marker mtime *)
   v_ts_gen_exist : bool;    (* timestamp: every generates pattern must match a file   (7.9) *)
   v_dry_mkdir_guard : bool; (* --dry does not create the task's dir                   (7.18) *)
-  v_force_records : bool    (* a successful --force run records the fingerprint *)
+  v_force_records : bool    (* a successful --force run records the fingerprint too *)
 }.
 
 Definition repaired : variant :=
@@ -242,7 +242,7 @@ Section Oracles.
     let key := cs_key t in
     let new := dg v (fp_cs (fs s) (t_sources t)) in
     let same := str_eq_opt (lookup key (cks s)) new in
-    let s' := if negb dry && negb same && negb (v_safe v) then with_cks s (set_key key new (cks s)) else s in
+    let s' := if negb dry && negb same then with_cks s (set_key key new (cks s)) else s in
     (same && gens_exist (fs s) t, s').
 
   Definition max_mtime (f : fsmap) (ps : list path) : N :=
@@ -257,7 +257,7 @@ Section Oracles.
     match lookup key (tss s) with
     | None =>
         (* marker missing: created (when not dry) but not part of this comparison *)
-        let s1 := if negb dry && negb (v_safe v) then with_tss s (set_key key now (tss s)) else s in
+        let s1 := if negb dry then with_tss s (set_key key now (tss s)) else s in
         if is_nil gens then (false, s1)
         else
           let upd := existsb (fun p => N.ltb gmax (mtime_of (fs s) p)) srcs in
@@ -265,7 +265,7 @@ Section Oracles.
     | Some mt =>
         let m := N.max gmax mt in
         let upd := existsb (fun p => N.ltb m (mtime_of (fs s) p)) srcs in
-        let s1 := if negb dry && negb (v_safe v) then with_tss s (set_key key now (tss s)) else s in
+        let s1 := if negb dry then with_tss s (set_key key now (tss s)) else s in
         (negb upd && (negb (v_ts_gen_exist v) || gens_exist (fs s) t), s1)
     end.
 
@@ -274,7 +274,7 @@ Section Oracles.
     let key := ts_key t in
     let new := Hx (fp_ts (fs s) (t_sources t)) in
     let same := str_eq_opt (lookup key (tsx s)) new in
-    let s' := if negb dry && negb same && negb (v_safe v) then with_tsx s (set_key key new (tsx s)) else s in
+    let s' := if negb dry && negb same then with_tsx s (set_key key new (tsx s)) else s in
     (same && gens_exist (fs s) t, s').
 
   Definition check_sources (v : variant) (dry : bool) (now : N) (s : state) (t : task) : bool * state :=
@@ -299,18 +299,12 @@ Section Oracles.
     | Checksum => if is_nil (t_sources t) then s else with_cks s (remove_key (cs_key t) (cks s))
     | Timestamp =>
         if v_ts_exact v then with_tsx s (remove_key (ts_key t) (tsx s))
-        else if v_ts_rollback v || v_safe v then with_tss s (remove_key (ts_key t) (tss s)) else s
+        else if v_ts_rollback v then with_tss s (remove_key (ts_key t) (tss s)) else s
     | NoMethod => s
     end.
 
-  (* repaired protocol: drop the record when an attempt starts ... *)
-  Definition invalidate (v : variant) (s : state) (t : task) : state :=
-    match t_method t with
-    | Checksum => with_cks s (remove_key (cs_key t) (cks s))
-    | Timestamp => if v_ts_exact v then with_tsx s (remove_key (ts_key t) (tsx s))
-                   else with_tss s (remove_key (ts_key t) (tss s))
-    | NoMethod => s
-    end.
+  (* repaired protocol: drop the record when an attempt starts (statusOnError before the prompt) ... *)
+  Definition invalidate (v : variant) (s : state) (t : task) : state := on_error v s t.
   (* ... and write it when every command has succeeded (fingerprint taken when the attempt started) *)
   Definition record (v : variant) (now : N) (f0 : fsmap) (s : state) (t : task) : state :=
     match t_method t with
@@ -332,25 +326,28 @@ Section Oracles.
     with_fs s (fold_left (fun f p => fs_set p {| f_content := "out"; f_mtime := now |} f) (t_outputs t) (fs s)).
 
   (* the command loop of RunTask for a non-dry run that got past check and prompt *)
-  Definition run_cmds (v : variant) (now : N) (f0 : fsmap) (record_ok : bool)
+  (* what a successful attempt leaves behind: the safe protocol records the fingerprint taken when the
+     attempt started; otherwise a forced run may (v_force_records) run the writing check afterwards *)
+  Definition after_success (v : variant) (now : N) (f0 : fsmap) (force : bool) (s : state) (t : task) : state :=
+    if v_safe v then (if negb force || v_force_records v then record v now f0 s t else s)
+    else if force && v_force_records v then snd (check_sources v false now s t) else s.
+
+  (* the command loop of RunTask for a non-dry run that got past check and prompt *)
+  Definition run_cmds (v : variant) (now : N) (f0 : fsmap) (force : bool)
                       (s : state) (tid : nat) (t : task) (o : outcome) : state * res :=
     let n := t_ncmds t in
+    let ok := (after_success v now f0 force
+                 (write_outputs (N.succ now) (with_trace s (add_trace tid 0 n (trace s))) t) t, ROk) in
     match o with
     | FailAt k =>
         if Nat.ltb k n then
           (on_error v (with_trace s (add_trace tid 0 (S k) (trace s))) t, RFailed)
-        else
-          let s1 := write_outputs (N.succ now) (with_trace s (add_trace tid 0 n (trace s))) t in
-          ((if record_ok then record v now f0 s1 t else s1), ROk)
+        else ok
     | KilledAt k =>
         if Nat.ltb k n then
           (with_trace s (add_trace tid 0 k (trace s)), RKilled)
-        else
-          let s1 := write_outputs (N.succ now) (with_trace s (add_trace tid 0 n (trace s))) t in
-          ((if record_ok then record v now f0 s1 t else s1), ROk)
-    | _ =>
-        let s1 := write_outputs (N.succ now) (with_trace s (add_trace tid 0 n (trace s))) t in
-        ((if record_ok then record v now f0 s1 t else s1), ROk)
+        else ok
+    | _ => ok
     end.
 
   Definition is_prompt_no (o : outcome) : bool := match o with PromptNo => true | _ => false end.
@@ -360,7 +357,7 @@ Section Oracles.
     : state * res :=
     let dry := match m with Dry => true | _ => false end in
     let force := match m with Force => true | _ => false end in
-    let '(up, s1) := if force then (false, s) else uptodate v dry now s t in
+    let '(up, s1) := if force then (false, s) else uptodate v (dry || v_safe v) now s t in
     if up then (s1, RSkipped)
     else
       let f0 := fs s in
@@ -371,8 +368,7 @@ Section Oracles.
         let s3 := if dry && v_dry_mkdir_guard v then s2 else mkdir s2 (t_dir t) in
         if dry then (s3, RDry)
         else
-          let record_ok := v_safe v && (negb force || v_force_records v) in
-          run_cmds v now f0 record_ok s3 tid t o.
+          run_cmds v now f0 force s3 tid t o.
 
   (* ToEditorOutput: the check of every listed task *)
   Definition list_json (v : variant) (now : N) (s : state) (p : project) : state :=
